@@ -54,21 +54,22 @@ Proof. vm_compute. reflexivity. Qed.
 Definition w_ev (a : nat) (x : Z) : res :=
   if (x <? 0)%Z && Nat.eqb a 1 then RExc 0 else if (x =? -9)%Z && Nat.eqb a 10 then RExc 1 else RVal (Z.of_nat a * x).
 Definition w_vis (a : nat) (x : Z) : res := if (x =? 5)%Z && Nat.eqb a 10 then RExc 1 else RVal 0.
+Definition w_modf (d : Z) (a : nat) : nat := a + Z.to_nat d.   (* modify_before_fit changes the member *)
 Definition w_l : list nat := [1; 10; 100].
 Definition w_ops : list (op (X := Z)) := [OCores 3; OEval 2%Z []; OEval (-7)%Z []; OEval 2%Z []; OEval 3%Z []].
 
 Example w_snapshot_answers :
-  map out_ans (snd (run w_ev w_vis false false w_l st_init w_ops))
+  map out_ans (snd (run w_ev w_vis w_modf false false w_l st_init w_ops))
   = [Some (RVal 222); Some (RExc 0); Some (RVal (-768)); Some (RVal 223)].
 Proof. vm_compute. reflexivity. Qed.
 Example w_now_answers :
-  map out_ans (snd (run w_ev w_vis true true w_l st_init w_ops))
+  map out_ans (snd (run w_ev w_vis w_modf true true w_l st_init w_ops))
   = [Some (RVal 222); Some (RExc 0); Some (RVal 222); Some (RVal 333)].
 Proof. vm_compute. reflexivity. Qed.
 
 Lemma history_free_refuted :
   exists (l : list nat) (ops : list (op (X := Z))),
-    ~ Forall2 (out_ok w_ev w_vis l) (calls ops) (snd (run w_ev w_vis false false l st_init ops)).
+    ~ Forall2 (out_ok w_ev w_vis) (trace w_modf l ops) (snd (run w_ev w_vis w_modf false false l st_init ops)).
 Proof.
   exists w_l, w_ops. intro H. vm_compute in H.
   inversion H as [|a b la lb H1 H2]; subst. inversion H2 as [|a' b' la' lb' H3 H4]; subst.
@@ -76,20 +77,20 @@ Proof.
 Qed.
 
 Example w_guarded :
-  map fst (guarded w_ev w_vis false w_l 1 false false w_ops) = [false; false; true; true].
+  map fst (guarded w_ev w_vis w_modf false w_l 1 false false w_ops) = [false; false; true; true].
 Proof. vm_compute. reflexivity. Qed.
 
 (* ---------- /repo today: schedules, visualize through the pool, exception classes ---------- *)
 (* a schedule that withholds results: same answer *)
 Example w_withheld :
-  map out_ans (snd (run w_ev w_vis true true w_l st_init [OCores 2; OEval 2%Z [[false; true]; [false; false]; [true; false]]]))
+  map out_ans (snd (run w_ev w_vis w_modf true true w_l st_init [OCores 2; OEval 2%Z [[false; true]; [false; false]; [true; false]]]))
   = [Some (RVal 222)].
 Proof. vm_compute. reflexivity. Qed.
 (* two analyses raise different classes on -9: the schedule decides which one the pool raises *)
-Example w_two_classes_first : map out_ans (snd (run w_ev w_vis true true w_l st_init [OCores 3; OEval (-9)%Z []])) = [Some (RExc 0)].
+Example w_two_classes_first : map out_ans (snd (run w_ev w_vis w_modf true true w_l st_init [OCores 3; OEval (-9)%Z []])) = [Some (RExc 0)].
 Proof. vm_compute. reflexivity. Qed.
 Example w_two_classes_second :
-  map out_ans (snd (run w_ev w_vis true true w_l st_init [OCores 3; OEval (-9)%Z [[false; true; true]]])) = [Some (RExc 1)].
+  map out_ans (snd (run w_ev w_vis w_modf true true w_l st_init [OCores 3; OEval (-9)%Z [[false; true; true]]])) = [Some (RExc 1)].
 Proof. vm_compute. reflexivity. Qed.
 Example w_two_classes_serial : serial w_ev w_l (-9)%Z = RExc 0.
 Proof. vm_compute. reflexivity. Qed.
@@ -103,8 +104,18 @@ Qed.
 (* visualize through a pool that was kept after n_cores went back to 1, one analysis raising;
    the evaluation that follows is not disturbed *)
 Example w_map_history :
-  snd (run w_ev w_vis true true w_l st_init [OCores 2; OCores 1; OMap 5%Z [[false; true]]; OEval 2%Z []; OMap 2%Z []])
+  snd (run w_ev w_vis w_modf true true w_l st_init [OCores 2; OCores 1; OMap 5%Z [[false; true]]; OEval 2%Z []; OMap 2%Z []])
   = [OutMap (Some (RExc 1)) [(0, 1); (2, 100)]; OutAns (Some (RVal 222)); OutMap (Some (RVal 0)) [(0, 1); (1, 10); (2, 100)]].
+Proof. vm_compute. reflexivity. Qed.
+
+(* modify_before_fit with a pool already running: the rebuilt analysis (general.yaml n_cores = 2) evaluates
+   the modified members 2, 11, 101; a pool kept from before would still hold 1, 10, 100 *)
+Example w_modify_rebuilds :
+  map out_ans (snd (run w_ev w_vis w_modf true true w_l st_init [OCores 3; OEval 2%Z []; OModify 1%Z 2; OEval 2%Z []; OCores 1; OEval 2%Z []]))
+  = [Some (RVal 222); Some (RVal 228); Some (RVal 228)].
+Proof. vm_compute. reflexivity. Qed.
+Example w_modify_trace :
+  map fst (trace w_modf w_l [OCores 3; OEval 2%Z []; OModify 1%Z 2; OEval 2%Z []]) = [[1; 10; 100]; [2; 11; 101]].
 Proof. vm_compute. reflexivity. Qed.
 
 (* 5 analyses on 4 cores: the fourth process holds nothing, the sum is complete *)
